@@ -208,30 +208,64 @@ func (av arrayValue) PropertyValue(iv Value) Value {
 }
 
 func (mv mapValue) Contains(iv Value) bool {
-	mr := reflect.ValueOf(mv.value)
-	ir := reflect.ValueOf(iv.Interface())
-	// as in IndexValue: a key of an interface type, or of a named type of the same kind, is a key
-	kt := mr.Type().Key()
-	if ir.IsValid() && ir.Type().ConvertibleTo(kt) && (kt.Kind() == reflect.Interface || kt.Kind() == ir.Kind()) && ir.Comparable() {
-		return mr.MapIndex(ir.Convert(kt)).IsValid()
-	}
-	return false
+	return MapEntry(reflect.ValueOf(mv.value), iv.Interface()).IsValid()
 }
 
 func (mv mapValue) IndexValue(iv Value) Value {
-	mr := reflect.ValueOf(mv.value)
-	ir := reflect.ValueOf(iv.Interface())
-	kt := mr.Type().Key()
-	// a struct type is comparable even when an interface-typed field holds a
-	// slice or a map; only the value says whether it can be hashed
-	if ir.IsValid() && ir.Type().ConvertibleTo(kt) && ir.Comparable() {
-		er := mr.MapIndex(ir.Convert(kt))
-		if er.IsValid() {
-			return ValueOf(er.Interface())
-		}
+	if er := MapEntry(reflect.ValueOf(mv.value), iv.Interface()); er.IsValid() {
+		return ValueOf(er.Interface())
 	}
 	return nilValue
 }
+
+// MapEntry returns the entry of the map m whose key equals key, or the zero
+// reflect.Value. A key of another Go type is that key when it has the same
+// value (1 and int8(1), "a" and a named string type's "a"); a value that a
+// conversion to the key type would change (65 to "A", 1.9 to 1, 257 to
+// uint8(1)) is not a key.
+func MapEntry(m reflect.Value, key any) reflect.Value {
+	kr, kt := reflect.ValueOf(key), m.Type().Key()
+	// a struct type is comparable even when an interface-typed field holds a
+	// slice or a map; only the value says whether it can be hashed
+	switch {
+	case !kr.IsValid() && kt.Kind() == reflect.Interface:
+		return m.MapIndex(reflect.Zero(kt))
+	case !kr.IsValid() || !kr.Comparable():
+		return reflect.Value{}
+	}
+	if kt.Kind() == reflect.Interface {
+		if kr.Type().AssignableTo(kt) {
+			if er := m.MapIndex(kr); er.IsValid() {
+				return er
+			}
+		}
+		// the key may be held as another type
+		if k := reflect.ValueOf(ToLiquid(key)).Kind(); isIntKind(k) || isFloatKind(k) || k == reflect.String {
+			for iter := m.MapRange(); iter.Next(); {
+				if Equal(iter.Key().Interface(), key) {
+					return iter.Value()
+				}
+			}
+		}
+		return reflect.Value{}
+	}
+	switch {
+	case kr.Type().AssignableTo(kt):
+	case !kr.Type().ConvertibleTo(kt):
+		return reflect.Value{}
+	case isNumberKind(kr.Kind()) && isNumberKind(kt.Kind()):
+		if kr = kr.Convert(kt); !Equal(kr.Interface(), key) {
+			return reflect.Value{}
+		}
+	case kr.Kind() == kt.Kind():
+		kr = kr.Convert(kt)
+	default:
+		return reflect.Value{}
+	}
+	return m.MapIndex(kr)
+}
+
+func isNumberKind(k reflect.Kind) bool { return isIntKind(k) || isFloatKind(k) }
 
 func (mv mapValue) PropertyValue(iv Value) Value {
 	mr := reflect.ValueOf(mv.Interface())
